@@ -204,6 +204,7 @@ size_t varintFloatEncode(uint8_t *output, const double *values,
     const uint8_t mant_bits = varintFloatPrecisionMantissaBits(precision);
     *p++ = exp_bits;
     *p++ = mant_bits;
+    uint8_t *const modeByte = p;
     *p++ = (uint8_t)mode;
 
     /* Check for integer overflow in allocation sizes */
@@ -255,6 +256,26 @@ size_t varintFloatEncode(uint8_t *output, const double *values,
         }
     }
 
+    /* COMMON_EXPONENT stores each exponent as a one-byte offset from the
+     * smallest one.  If the exponents of this array span more than 255,
+     * that byte cannot hold them: encode (and label) the array as
+     * INDEPENDENT instead, which the decoder reads from the header. */
+    varintFloatEncodingMode effectiveMode = mode;
+    if (mode == VARINT_FLOAT_MODE_COMMON_EXPONENT) {
+        int lowest = INT16_MAX;
+        int highest = INT16_MIN;
+        for (size_t i = 0; i < count; i++) {
+            if (!special_flags[i]) {
+                lowest = exponents[i] < lowest ? exponents[i] : lowest;
+                highest = exponents[i] > highest ? exponents[i] : highest;
+            }
+        }
+        if (highest > lowest && highest - lowest > UINT8_MAX) {
+            effectiveMode = VARINT_FLOAT_MODE_INDEPENDENT;
+            *modeByte = (uint8_t)effectiveMode;
+        }
+    }
+
     /* Write special values bitmap */
     const size_t special_bitmap_size = (count + 7) / 8;
     packBits(special_flags, count, 1, p);
@@ -265,7 +286,7 @@ size_t varintFloatEncode(uint8_t *output, const double *values,
     p += (count + 7) / 8;
 
     /* Write exponents based on mode */
-    if (mode == VARINT_FLOAT_MODE_INDEPENDENT) {
+    if (effectiveMode == VARINT_FLOAT_MODE_INDEPENDENT) {
         /* Each exponent independently */
         for (size_t i = 0; i < count; i++) {
             if (!special_flags[i]) {
@@ -278,7 +299,7 @@ size_t varintFloatEncode(uint8_t *output, const double *values,
                 p += width;
             }
         }
-    } else if (mode == VARINT_FLOAT_MODE_COMMON_EXPONENT) {
+    } else if (effectiveMode == VARINT_FLOAT_MODE_COMMON_EXPONENT) {
         /* Find min/max exponents for non-special values */
         int16_t min_exp = INT16_MAX;
         int16_t max_exp = INT16_MIN;
